@@ -372,7 +372,9 @@ def to_vector(c):
     if c is None or c is False:
         return c
     if hasattr(c, vector):
-        return c
+        # already labelled; normalize it like any other vector
+        norm = np.sqrt((c**2).sum(vector))
+        return c if (norm == 1).all() else c / norm
     if isinstance(c, dict):
         c = c.copy()
         for key, val in c.items():
